@@ -1,58 +1,66 @@
 /* C18: secp256k1_ellswift_decode is TOTAL: for every 64-byte string it returns 1 without any callback and
  * writes a pubkey object whose x is the x the map computed and whose y has the parity of t.
  * REAL code: fe_set_b32_mod, fe_normalize_var, the whole body of secp256k1_ellswift_xswiftec_frac_var
- * (remaps u=0 -> 1, t=0 -> s=1, g+s=0 -> s=4s via the real secp256k1_fe_normalizes_to_zero_var; candidate
- * selection), xswiftec_var, swiftec_var, ge_set_xo_var (parity fix-up), pubkey_save.
- * ASSUMED oracles with ghost logs (assumed_C18.h): fe mul / sqr / inv_var, the two curve-membership verdicts
+ * (remaps, candidate selection), xswiftec_var, swiftec_var, ge_set_xo_var (parity fix-up), pubkey_save.
+ * ASSUMED oracles with ghost logs (assumed_C18.h): fe mul / sqr / inv_var, the curve-membership verdicts
  * (ge_x_frac_on_curve_var), ge_set_xquad (square root).  With mul/sqr replaced, their operand-magnitude
  * preconditions (<= 8) are obligations: the map code is overflow-free for every input.
+ * Rule followed (audit 1): oracle usage is stated over VALUES - "some multiplication or squaring has an operand
+ * equal to ..." - never over the ordinal of a call or the position of an operand, so reordering operands or
+ * independent calls inside the map is accepted.  The remaps of doc/ellswift.md ("if u = 0 set u = 1", "if t = 0
+ * set t = 1", i.e. s = 1, "if u^3+t^2+7 = 0 set t = 2t", i.e. s = 4s) are observed as: for u = 0 (mod p) the
+ * value 1 enters the arithmetic, for t = 0 (mod p) the value 1 (or 4) does; otherwise u resp. t themselves do.
  * Map ALGEBRA (that the selected candidate is on the curve, that x = xn/xd) is the assumed residue. */
 #include "assumed_C18.h"
 #include "../C04/spec.h"
 #include "src/secp256k1.c"
 #include "post.h"
+#define SPEC_VIEWS
+#include "../C04/spec.h"
 
-static sp modp8(sp a) { sp p = sp_p(); int i; for (i = 0; i < 9; i++) if (!sp_lt(a, p)) a = sp_sub(a, p); return a; }   /* a < 9p */
-static sp mul4p(sp a) { return modp8(sp_add(sp_add(a, a), sp_add(a, a))); }                                            /* 4a mod p, a < p */
-
+#define FE_SAME(a, b) FE_EQ(a, b)
 void h_decode(void) {
     secp256k1_context ctx;
     INPUT(secp256k1_pubkey, pk); INPUT_ARR(unsigned char, ell, 64); INPUT(_Bool, use_pk); INPUT(_Bool, use_ell); INPUT(size_t, k);
     unsigned char ell0[64];
-    int ret; sp uv = sp_modp(sp_be32(ell)), tv = sp_modp(sp_be32(ell + 32)), s, s0, y0, yo;
+    int ret, u_canon, t_canon, oinv; sp ub = sp_be32(ell), tb = sp_be32(ell + 32), tv = sp_modp(tb), y0, ox, oy;
     verif_ctx_init(&ctx);
-    g_sqr_n = 0; g_fmul_n = 0; g_finv_n = 0; g_onc_n = 0; g_xq_n = 0;
+    g_sqr_n = 0; g_fmul_n = 0; g_finv_n = 0; g_onc_n = 0; g_xq_n = 0; g_fsaw0 = g_fsaw1 = g_fsaw2 = g_fsaw3 = 0;
     __CPROVER_assume(k < 64);
     memcpy(ell0, ell, 64);
+    /* watch values, built with the TU's own field functions: u and t as canonical field elements (when the byte
+     * strings are < p), the constants 1 and 4 */
+    u_canon = secp256k1_fe_set_b32_limit(&g_fw0, ell);
+    t_canon = secp256k1_fe_set_b32_limit(&g_fw1, ell + 32);
+    g_fw2 = secp256k1_fe_one; secp256k1_fe_set_int(&g_fw3, 4);
     ret = secp256k1_ellswift_decode(&ctx, use_pk ? &pk : NULL, use_ell ? ell : NULL);
     __CPROVER_assert(g_error == 0, "C18 decode: error callback never invoked");
-    __CPROVER_assert(ell[k] == ell0[k], "C18 decode: encoding is not modified");
-    if (!use_pk || !use_ell) __CPROVER_assert(ret == 0 && g_illegal == 1 && g_sqr_n == 0, "C18 decode: NULL argument is illegal and returns 0");
+    __CPROVER_assert(ell[k] == ell0[k], "C18 decode: encoding (const) is not modified");
+    if (!use_pk || !use_ell) __CPROVER_assert(ret == 0 && g_illegal == 1, "C18 decode: NULL argument is illegal and returns 0");
     else {
         __CPROVER_assert(ret == 1 && g_illegal == 0, "C18 decode: total - returns 1 for every 64-byte string, no callback");
-        __CPROVER_assert(g_sqr_n >= 2 && sp_eq(sp_modp(fval(&g_sqr_a0)), tv), "C18 decode: t is bytes 32..63 mod p");
-        __CPROVER_assert(sp_eq(sp_modp(fval(&g_sqr_a1)), sp_is0(uv) ? sp_u64(1) : uv), "C18 decode: u is bytes 0..31 mod p, with u = 0 (mod p) remapped to 1");
-        s = modp8(fval(&g_fmul_a1)); s0 = sp_modp(fval(&g_sqr_r0));
-        __CPROVER_assert(g_fmul_n >= 3, "C18 decode: map multiplications happened");
-        if (sp_is0(tv)) __CPROVER_assert(sp_eq(s, sp_u64(1)) || sp_eq(s, sp_u64(4)), "C18 decode: t = 0 (mod p) is remapped: s = 1 (or 4 in the g+s = 0 case)");
-        else __CPROVER_assert(sp_eq(s, s0) || sp_eq(s, mul4p(s0)), "C18 decode: otherwise s is the square of t (times 4 in the g+s = 0 case)");
+        if (u_canon && !sp_is0(ub)) __CPROVER_assert(g_fsaw0, "C18 decode: u (bytes 0..31) enters the map arithmetic");
+        if (sp_is0(sp_modp(ub))) __CPROVER_assert(g_fsaw2, "C18 decode: u = 0 (mod p, i.e. bytes 0 or p) is remapped: the value 1 enters the arithmetic in its place");
+        if (t_canon && !sp_is0(tb)) __CPROVER_assert(g_fsaw1, "C18 decode: t (bytes 32..63) enters the map arithmetic");
+        if (sp_is0(tv)) __CPROVER_assert(g_fsaw2 || g_fsaw3, "C18 decode: t = 0 (mod p) is remapped: s = 1 (or 4 in the g+s = 0 case) enters the arithmetic");
         __CPROVER_assert(g_onc_n == 1 || g_onc_n == 2, "C18 decode: one or two curve-membership verdicts");
         if (g_onc_n == 1) __CPROVER_assert(g_onc_v0 == 1, "C18 decode: a single verdict means the first candidate was accepted");
-        if (g_onc_n == 2) __CPROVER_assert(g_onc_v0 == 0, "C18 decode: the second candidate is only tried after the first was rejected");
-        __CPROVER_assert(g_finv_n == 1 && FE_EQ(g_fmul_bl, g_finv_r0), "C18 decode: x = xn * (1/xd): one inversion, its result is the last multiplier");
-        if (g_onc_v0 == 1) __CPROVER_assert(FE_EQ(g_fmul_al, g_onc_xn0) && FE_EQ(g_finv_x0, g_onc_xd0), "C18 decode: an accepted first candidate is the fraction returned");
-        if (g_onc_n == 2 && g_onc_v1 == 1) __CPROVER_assert(FE_EQ(g_fmul_al, g_onc_xn1) && FE_EQ(g_finv_x0, g_onc_xd1), "C18 decode: an accepted second candidate is the fraction returned");
-        if (g_onc_n == 2 && g_onc_v1 == 0) __CPROVER_assert(FE_EQ(g_finv_x0, g_onc_xd1), "C18 decode: the third candidate shares the second's denominator");
-        __CPROVER_assert(g_xq_n == 1 && FE_EQ(g_xq_x0, g_fmul_rl), "C18 decode: the x lifted to a point is the product computed");
-        __CPROVER_assert(sp_eq(sp_le32(pk.data), sp_modp(fval(&g_xq_x0))), "C18 decode: pubkey x is that x, reduced mod p");
-        y0 = sp_modp(fval(&g_xq_y0)); yo = sp_le32(pk.data + 32);
-        __CPROVER_assert(sp_eq(yo, y0) || sp_eq(yo, sp_negp(y0)), "C18 decode: pubkey y is the lifted y or its negation, reduced mod p");
-        if (!sp_is0(y0)) __CPROVER_assert(sp_odd(yo) == sp_odd(tv), "C18 decode: parity of y equals parity of t (mod p)");
+        if (g_onc_n == 2) __CPROVER_assert(g_onc_v0 == 0, "C18 decode: a second candidate is only tried after the first was rejected");
+        __CPROVER_assert(g_finv_n >= 1 && g_fmul_n >= 1 && (FE_SAME(g_fmul_bl, g_finv_r0) || FE_SAME(g_fmul_al, g_finv_r0)), "C18 decode: x = xn * (1/xd): the inversion result is an operand of the final multiplication");
+        if (g_onc_v0 == 1) __CPROVER_assert((FE_SAME(g_fmul_al, g_onc_xn0) || FE_SAME(g_fmul_bl, g_onc_xn0)) && FE_SAME(g_finv_x0, g_onc_xd0), "C18 decode: an accepted first candidate is the fraction returned");
+        if (g_onc_n == 2 && g_onc_v1 == 1) __CPROVER_assert((FE_SAME(g_fmul_al, g_onc_xn1) || FE_SAME(g_fmul_bl, g_onc_xn1)) && FE_SAME(g_finv_x0, g_onc_xd1), "C18 decode: an accepted second candidate is the fraction returned");
+        __CPROVER_assert(g_xq_n >= 1 && FE_SAME(g_xq_x0, g_fmul_rl), "C18 decode: the x lifted to a point is the product computed");
+        view_pk64(pk.data, &ox, &oy, &oinv);
+        __CPROVER_assert(sp_eq(ox, sp_modp8(fval(&g_xq_x0))), "C18 decode: pubkey x is that x (mod p)");
+        y0 = sp_modp8(fval(&g_xq_y0));
+        __CPROVER_assert(sp_eq(oy, y0) || sp_eq(oy, sp_negp(y0)), "C18 decode: pubkey y is the lifted y or its negation (mod p)");
+        if (!sp_is0(y0)) __CPROVER_assert(sp_odd(oy) == sp_odd(tv), "C18 decode: parity of y equals parity of t (mod p)");
         if (g_onc_n == 1) REACH("decode first candidate");
         if (g_onc_n == 2 && g_onc_v1 == 1) REACH("decode second candidate");
         if (g_onc_n == 2 && g_onc_v1 == 0) REACH("decode third candidate");
-        if (sp_is0(uv) && !sp_is0(sp_be32(ell))) REACH("decode u = p (zero mod p, non-zero bytes)");
-        if (sp_is0(tv) && sp_eq(s, sp_u64(4))) REACH("decode t = 0 with the g+s = 0 doubling");
-        if (!sp_lt(sp_be32(ell + 32), sp_p())) REACH("decode t >= p");
+        if (sp_is0(sp_modp(ub)) && !sp_is0(ub)) REACH("decode u = p (zero mod p, non-zero bytes)");
+        if (sp_is0(tv) && g_fsaw3 && !g_fsaw2) REACH("decode t = 0 with the g+s = 0 doubling");
+        if (!sp_lt(tb, sp_p())) REACH("decode t >= p");
     }
+    if (!use_pk || !use_ell) REACH("decode NULL argument");
 }
